@@ -22,7 +22,7 @@ VERIF = os.path.dirname(os.path.dirname(os.path.abspath(__file__)))
 
 def sh(cmd, cwd=None, timeout=3600, env=None):
     r = subprocess.run(cmd, shell=isinstance(cmd, str), cwd=cwd, stdout=subprocess.PIPE, stderr=subprocess.STDOUT,
-                       text=True, timeout=timeout, env=env)
+                       text=True, errors="replace", timeout=timeout, env=env)
     return r.returncode, r.stdout
 
 
